@@ -46,6 +46,19 @@ check('C16', 'rapidcheck differential between Verilated models of processor.sv, 
       'Trusted: Verilator 5.006 two-state simulation (x-optimism differences invisible).',
       'DESIGN.md 6 C16')
 
+check('C05', 'Hypothesis-generated assembly programs + complete boundary sweeps, decode-walk oracle over the source items, execution of tour programs on the ISA reference',
+      'Generated programs (mutually dependent reference lengths, distances on every encoding-length boundary in both directions, DATA alignment absorbing '
+      'size changes) are assembled by the working-tree assembler (sanitizer build, file interface); the image is walked in source order and every reference '
+      'must land on its label; unaligned absolute references must be rejected; header word and symbol table checked; tours executed on refisa.',
+      'Trusted: asmgen.walk/decode_at (ISA prefix rule) and refisa. Termination is observed as a 10 s budget confirmed with a 60 s re-run. '
+      'A rejection is accepted only for an absolute reference to a label that does not name a DATA word.',
+      'DESIGN.md 6 C05')
+check('C17', 'Hypothesis-generated programs through the real executables twice (listing, binary); listing-driven decode of the image',
+      'Each listing line (hexasm --instrs / xcmp -S) is checked against the bytes of the image written by a second run of the same tool: offset, size, mnemonic, '
+      'operand (value in parentheses for labels), DATA alignment/value, zero bytes between and after entries.',
+      'PADDING line and trailing total ignored (pinned odd values). Label lines constrained by order only.',
+      'DESIGN.md 6 C17')
+
 NOT_YET = {}
 
 def main():
